@@ -251,15 +251,8 @@ Proof.
   intros. unfold x_do_create, do_create. rewrite x_pick_none.
   destruct (lookup (vs cs) t) as [[? ?]|]; [eexists; split; reflexivity|].
   destruct (pick (vs cs) orc) as [[slot pd]|e]; [|eexists; split; reflexivity].
-  unfold x_open, copy. cbn [tick].
-  destruct (get t (files_of (vs cs) pd)) as [fl|] eqn:C.
-  - eexists. split; reflexivity.
-  - cbv beta iota. change (E_OK =? E_OK)%Z with true. cbv beta iota.
-    unfold x_setxattr. cbn [tick vs with_vs]. rewrite copy_put_file, !N.eqb_refl. cbn [andb].
-    cbv beta iota. change (E_OK =? E_OK)%Z with true. cbv beta iota.
-    unfold x_write. cbn [tick vs with_vs]. rewrite copy_put_file, !N.eqb_refl. cbn [andb].
-    cbv beta iota.
-    eexists. split; [reflexivity|]. cbn. rewrite !put_file_put_file. reflexivity.
+  unfold copy. cbn [tick].
+  destruct (get t (files_of (vs cs) pd)) as [fl|] eqn:C; eexists; split; reflexivity.
 Qed.
 
 Lemma x_create_none : forall cs t d off orc,
